@@ -20,8 +20,8 @@ RULE = ("(a) complete enumeration of the 1D slice space for 1..6 bins: start, st
         "plus conservation of total + underflow + overflow for non-empty contiguous slices; after each selection the result's edge "
         "representations are cross-checked; non-trivial = selection that cuts off content on at least one side, or drops >= 1 axis of a >= 3D "
         "histogram; distinct by hash of (histogram, index)")
-ASSUMPTIONS = ["slices with an explicit step and empty selections may be refused (not demanded by the statement)",
-               "unsorted / repeated index arrays: judged against 'taken in increasing order' (known finding 1d.index_array.unsorted)"]
+ASSUMPTIONS = ["empty selections and a zero step may be refused; forward steps are judged like the equivalent index array, negative steps must be refused",
+               "unsorted / repeated index arrays: judged against 'taken in increasing order'; integer bookkeeping of what a slice cuts off is compared as integers (beyond 2**53)"]
 
 
 def attach_monitors():
